@@ -188,6 +188,13 @@ namespace nmtools::array
 
             auto inp_data_ptr = nmtools::data(*input_array_ptr);
 
+            // fold the view's initial value (if any) into a finished result element
+            [[maybe_unused]] auto apply_initial = [&](element_type& x){
+                if constexpr (!is_none_v<decltype(view.initial)>) {
+                    x = view.op(static_cast<element_type>(view.initial),x);
+                }
+            };
+
             constexpr auto bit_width = meta::bit_width_v<simd_tag_t>;
             const auto op = context.template create_ufunc_simd_op<element_type>(view.op);
             constexpr auto N = bit_width / (sizeof(element_type) * 8); // 8 = 8-bit
@@ -228,6 +235,7 @@ namespace nmtools::array
                 for (size_t i=(M*N); i<size; i++) {
                     result = view.op(result,inp_data_ptr[i]);
                 }
+                apply_initial(result);
 
                 if constexpr (meta::is_num_v<output_t>) {
                     output = result;
@@ -348,6 +356,9 @@ namespace nmtools::array
                 default: {
                     return false;
                 } break;
+                }
+                for (size_t i=0; i<out_size; i++) {
+                    apply_initial(out_data_ptr[i]);
                 }
                 return true;
             }
